@@ -90,9 +90,14 @@ LLaunch == /\ Is("launch")
 LPublish == Is("publish") /\ Check(tid, l, "publish-allowed-by-dag", pc = "pipeline" /\ Ev.k \in Outputs(cmd.wf) \ pub) /\ Publish(Ev.k) /\ Adv
 LPipelineDone == Is("pipeline_done") /\ pc' = "run" /\ UNCHANGED <<idirs, pdirs, files, ni, nj, cmd, pub, Ghosts>> /\ LKeep /\ Adv
 LCrash == Is("crash") /\ pc' = "idle" /\ UNCHANGED <<idirs, pdirs, files, ni, nj, cmd, pub, Ghosts>> /\ LKeep /\ Adv
+\* (plate 99: the script named a whole iteration directory and the operator removed it with everything inside)
 LOperator == /\ Is("operator_remove")
-             /\ pdirs' = pdirs \ {<<Ev.dir[1], Ev.dir[2]>>} /\ files' = [files EXCEPT ![<<Ev.dir[1], Ev.dir[2]>>] = NoFiles]
-             /\ UNCHANGED <<idirs, pc, ni, nj, cmd, pub, Ghosts>> /\ LKeep /\ Adv
+             /\ IF Ev.dir[2] = 99
+                THEN /\ pdirs' = {p \in pdirs : p[1] # Ev.dir[1]} /\ idirs' = idirs \ {Ev.dir[1]}
+                     /\ files' = [s \in DOMAIN files |-> IF s[1] = Ev.dir[1] THEN NoFiles ELSE files[s]]
+                ELSE /\ pdirs' = pdirs \ {<<Ev.dir[1], Ev.dir[2]>>} /\ files' = [files EXCEPT ![<<Ev.dir[1], Ev.dir[2]>>] = NoFiles]
+                     /\ UNCHANGED idirs
+             /\ UNCHANGED <<pc, ni, nj, cmd, pub, Ghosts>> /\ LKeep /\ Adv
 LDied == Is("died") /\ died' = TRUE /\ UNCHANGED <<idirs, pdirs, files, pc, ni, nj, cmd, pub, completed, launched>> /\ LKeep /\ Adv
 LEnd == /\ Is("end")
         /\ Check(tid, l, "C19:run-finished-with-every-step-of-the-uninterrupted-run",
